@@ -65,7 +65,7 @@ def random_fn(rng, name, profile, helpers=(), in_module=False, forbid_names=()):
     for h in bounds:
         # h: (trait_name, method_name, fn_id, is_async)
         if rng.random() < 0.8 and (f.is_async or not h[3]):
-            f.calls.append((h[1], h[2], "%di32" % rng.randint(1, 9), h[3]))
+            f.calls.append((h[1], h[2], "%di32%s" % (rng.randint(1, 9), h[4] if len(h) > 4 else ""), h[3]))
     f.bounds = [h[0] for h in bounds]
     if f.deps_kind in ("generic_ref", "impl_ref") and rng.random() < P.get("p_relaxed_deps", 0.08):
         # a relaxed bound on the dependency: legal on the fn, never a requirement of the generated impl
@@ -246,6 +246,15 @@ class FnCaseBuilder:
                 self.lines.append("#[::entrait::entrait(pub %s)]" % tname)
                 self.lines.append("%sfn %s<D>(deps: &D, x: i32) -> i32 { %s }" % ("async " if is_async else "", fname, body))
             helpers.append((tname, fname, fid, is_async))
+        mocked = any(o.replace(" ", "").startswith(("mock_api", "mockall")) and "false" not in o for o in self.options)
+        if n >= 1 and not mocked and rng.random() < 0.25:
+            # one generic leaf trait required at two different instantiations (`Gt<u8> + Gt<i64>`: same path, different arguments),
+            # implemented for the application type of this case only
+            self.lines.append("pub trait Gt<X> { fn gt(&self, x: i32, tag: X) -> i32; }")
+            for ty in ("u8", "i64"):
+                fid = "%s::gt_%s" % (self.cid, ty)
+                self.lines.append('impl Gt<%s> for ::entrait::Impl<App> { fn gt(&self, x: i32, tag: %s) -> i32 { ::vrt::enter("%s", "", ::vrt::addr(self), &[&x as &dyn ::core::fmt::Debug]); x } }' % (ty, ty, fid))
+                helpers.append(("Gt<%s>" % ty, "gt", fid, False, ", 0%s" % ty))
         return helpers
 
     def attr_line(self, trait_vis, trait_name, opts, no_deps):
